@@ -1,5 +1,6 @@
 """C03 navigation paths: all 2-D access paths of a view denote the same cell; polynomial iterator laws;
 mirrored ordering operators; is_1d_traversable -- D-poly over inlined IR."""
+import os
 from . import common as C
 from .pairs import Pair, run_pairs
 from .p02 import KINDS_ALL, NPROBE
@@ -119,6 +120,52 @@ def run(rep):
     rep.floor("obligations:locator", nk * 16)
     rep.floor("obligations:iter-law", nk * 9)
     rep.floor("obligations:order", nk * 10)
+    row_carry(rep)
     rep.floor("obligations:order-dir", 32)
     from .p06 import accept_inconclusive
     accept_inconclusive(rep, "c03_inconclusive.json")
+
+
+def row_carry(rep):
+    """L9: row-carry arithmetic of iterator_from_2d, proved symbolically over the instantiated AST (harness/carry.py)"""
+    from . import carry
+    from .ast import rules as R
+    from .ir.poly import Poly
+    rep.rule("L9 iterator_from_2d::advance(d): in both branches delta.x + width*delta.y == d (the linear index y*width+x moves by exactly d) and "
+             "x + delta.x is a remainder of a non-negative numerator (stays in [0,width)); the same delta is applied to the locator; "
+             "distance_to(it) == (it.y - y)*width + (it.x - x)")
+    wd = C.workdir("C03ast")
+    d = C.astdump(os.path.join(C.DRIVERS, "c03_iter.cpp"), os.path.join(wd, "it.json"), ['^boost::gil::iterator_from_2d::(advance|distance_to)$'])
+    if d.get("errors"):
+        raise C.AnalysisBroken("drivers/c03_iter.cpp has compile errors")
+    where = "include/boost/gil/iterator_from_2d.hpp"
+    for f in d["functions"]:
+        short = f["name"].split("::")[-1]
+        if short == "advance":
+            try:
+                res = carry.check_advance(f)
+            except carry.Unrecognised as e:
+                rep.fail_analysis("L9 advance(): %s" % e)
+                continue
+            for name, ok, det in res:
+                rep.count("obligations:row-carry")
+                key = "row-carry:advance:" + name
+                if ok:
+                    rep.ok("row-carry", key, det)
+                elif det.get("witness"):
+                    rep.violation("row-carry", key, "%s:%s" % (where, f["line"]), det)
+                else:
+                    rep.fail_analysis("L9 %s: identity not established and no witness found: %s" % (key, det))
+        if short == "distance_to":
+            rets = [x for x, _ in R.find(f["body"], lambda x: x.get("k") == "Return" and x.get("e") is not None)]
+            rep.count("obligations:row-carry")
+            pn = f["params"][0]["name"]
+            env = {"_coords.x": "cx", "_coords.y": "cy", "_width": "W", pn + ".x_pos()": "x2", pn + ".y_pos()": "y2"}
+            got = [R.poly_of(r["e"], lambda s: env.get(s, s)) for r in rets]
+            want = (Poly.atom("y2") - Poly.atom("cy")) * Poly.atom("W") + Poly.atom("x2") - Poly.atom("cx")
+            nz = [g for g in got if g != Poly()]
+            if len(nz) == 1 and nz[0] == want:
+                rep.ok("row-carry", "row-carry:distance_to", repr(want))
+            else:
+                rep.violation("row-carry", "row-carry:distance_to", "%s:%s" % (where, f["line"]), {"returned": [repr(g) for g in got], "documented": repr(want)})
+    rep.floor("obligations:row-carry", 3)
